@@ -5,6 +5,8 @@
 //@harness k1_element_layout complete
 //@harness k1_bucket_meta_codec complete
 //@harness k1_constants complete
+//@harness k1_element_slices bounded bound="every header content whose element / id slice fits the 128-byte harness buffer (count <= 3 leaf, 4 branch, 12 free-list entries)"
+//@harness k1_payload_addressing bounded bound="every element header whose key and value lie inside the 128-byte harness buffer"
 //@trusted layout pins hold for the Kani build target (x86_64, little-endian); other targets are assumed to agree because every struct is #[repr(C)]
 #[cfg(kani)]
 mod verif_kani_layout {
@@ -143,5 +145,69 @@ mod verif_kani_layout {
         kani::cover!(true);
         assert!(Page::TYPE_BRANCH == 1 && Page::TYPE_LEAF == 2 && Page::TYPE_META == 3 && Page::TYPE_FREELIST == 4);
         assert!(Node::TYPE_DATA == 0 && Node::TYPE_BUCKET == 1);
+    }
+
+    // the element / free-list slices of a page: `count` entries starting right behind the 32-byte header prefix (pins the
+    // stubs U14 / U17 / U18 of the Verus units: length == count, fixed start).  Kani checks the validity of the whole slice,
+    // so `count` is limited to what the harness buffer holds: BOUNDED
+    #[kani::proof]
+    fn k1_element_slices() {
+        let mut buf = Buf(kani::any());
+        let ty: u8 = kani::any();
+        kani::assume(ty == Page::TYPE_LEAF || ty == Page::TYPE_BRANCH || ty == Page::TYPE_FREELIST);
+        buf.0[8] = ty;
+        let cnt: u64 = kani::any();
+        kani::assume(cnt <= if ty == Page::TYPE_LEAF { 3 } else if ty == Page::TYPE_BRANCH { 4 } else { 12 });
+        buf.0[16..24].copy_from_slice(&cnt.to_le_bytes());
+        let p = Page::from_buf(&buf.0, 0, 128);
+        kani::cover!(true);
+        let base = p as *const Page as usize;
+        if ty == Page::TYPE_LEAF {
+            let s = p.leaf_elements();
+            assert!(s.len() as u64 == p.count && p.count == cnt);
+            assert!(s.as_ptr() as usize == base + 32);
+        } else if ty == Page::TYPE_BRANCH {
+            let s = p.branch_elements();
+            assert!(s.len() as u64 == p.count && p.count == cnt);
+            assert!(s.as_ptr() as usize == base + 32);
+        } else {
+            let s = p.freelist();
+            assert!(s.len() as u64 == p.count && p.count == cnt);
+            assert!(s.as_ptr() as usize == base + 32);
+        }
+    }
+
+    // where an element's key and value lie: `pos` bytes behind the element header itself, value right behind the key, with the
+    // recorded lengths (pins the stubs LeafElement::key / value and BranchElement::key: functions of the element header).
+    // The element is the first one of a leaf / branch page in the harness buffer: BOUNDED by the buffer
+    #[kani::proof]
+    fn k1_payload_addressing() {
+        let mut buf = Buf(kani::any());
+        let leaf: bool = kani::any();
+        buf.0[8] = if leaf { Page::TYPE_LEAF } else { Page::TYPE_BRANCH };
+        buf.0[16..24].copy_from_slice(&1u64.to_le_bytes());
+        let p = Page::from_buf(&buf.0, 0, 128);
+        kani::cover!(true);
+        if leaf {
+            let l = &p.leaf_elements()[0];
+            kani::assume(l.pos <= 96 && l.key_size <= 96 && l.value_size <= 96 && l.pos + l.key_size + l.value_size <= 96);
+            let base = l as *const LeafElement as usize;
+            let k = l.key();
+            assert!(k.len() as u64 == l.key_size);
+            assert!(k.as_ptr() as usize == base + l.pos as usize);
+            let v = l.value();
+            assert!(v.len() as u64 == l.value_size);
+            assert!(v.as_ptr() as usize == base + (l.pos + l.key_size) as usize);
+            if l.key_size > 0 { let i: usize = kani::any(); kani::assume((i as u64) < l.key_size); assert!(k[i] == buf.0[32 + l.pos as usize + i]); }
+            if l.value_size > 0 { let i: usize = kani::any(); kani::assume((i as u64) < l.value_size); assert!(v[i] == buf.0[32 + (l.pos + l.key_size) as usize + i]); }
+        } else {
+            let b = &p.branch_elements()[0];
+            kani::assume(b.pos <= 96 && b.key_size <= 96 && b.pos + b.key_size <= 96);
+            let bb = b as *const BranchElement as usize;
+            let bk = b.key();
+            assert!(bk.len() as u64 == b.key_size);
+            assert!(bk.as_ptr() as usize == bb + b.pos as usize);
+            if b.key_size > 0 { let i: usize = kani::any(); kani::assume((i as u64) < b.key_size); assert!(bk[i] == buf.0[32 + b.pos as usize + i]); }
+        }
     }
 }
